@@ -827,6 +827,9 @@ func genCase(t *rapid.T) Case {
 		if rapid.Bool().Draw(t, "indir") {
 			ops = append(ops, plainEntry(t, "dir", "d"))
 		}
+		if rapid.IntRange(0, 3).Draw(t, "leadfile") > 0 { // a nameless entry is only decodable behind a file or a goodbye
+			ops = append(ops, plainEntry(t, "file", "f"))
+		}
 		for i, n := 0, rapid.IntRange(1, 3).Draw(t, "n"); i < n; i++ {
 			k := []string{"file", "sym", "dev", "dir"}[rapid.SampledFrom([]int{0, 1, 1, 2, 3}).Draw(t, "sk")]
 			if i == 0 && rapid.IntRange(0, 3).Draw(t, "first-file") > 0 {
@@ -1040,7 +1043,8 @@ func TestEnum(t *testing.T) {
 				if inDir {
 					ops = append(ops, attr(Op{K: "dir", Name: "d"}))
 				}
-				ops = append(ops, attr(f), attr(s), attr(Op{K: "file", Name: "x"}), attr(Op{K: "dir", Name: "sub"}))
+				// a nameless entry is only decodable behind a file or a goodbye: lead with a plain file
+				ops = append(ops, attr(Op{K: "file", Name: "f"}), attr(f), attr(s), attr(Op{K: "file", Name: "x"}), attr(Op{K: "dir", Name: "sub"}))
 				for _, p := range pathFor() {
 					cases = append(cases, Case{Path: p, Ops: ops, Workers: 1})
 				}
